@@ -46,6 +46,7 @@ pub enum Request {
 
 #[derive(Debug)]
 pub enum AppCall {
+    Probe,
     Padding(u8),
     Subtype(u8),
     Data(Vec<u8>),
@@ -53,6 +54,7 @@ pub enum AppCall {
 
 #[derive(Debug)]
 pub enum ByeCall {
+    Probe,
     Padding(u8),
     AddSource(u32),
     Reason(String),
@@ -77,12 +79,14 @@ pub struct Rb {
 
 #[derive(Debug)]
 pub enum RrCall {
+    Probe,
     Padding(u8),
     AddRb(Rb),
 }
 
 #[derive(Debug)]
 pub enum SrCall {
+    Probe,
     Padding(u8),
     Ntp(u64),
     Rtp(u32),
@@ -118,18 +122,21 @@ pub struct Chunk {
 
 #[derive(Debug)]
 pub enum SdesCall {
+    Probe,
     Padding(u8),
     AddChunk(Chunk),
 }
 
 #[derive(Debug)]
 pub enum UnkCall {
+    Probe,
     Padding(u8),
     Count(u8),
 }
 
 #[derive(Debug)]
 pub enum FbCall {
+    Probe,
     SenderSsrc(u32),
     MediaSsrc(u32),
     Padding(u8),
@@ -137,18 +144,46 @@ pub enum FbCall {
 
 #[derive(Debug)]
 pub enum RpsiCall {
+    Probe,
     PayloadType(u8),
+    /// `native_data(&[u8], k)` (`Cow::Borrowed`)
     NativeData(Vec<u8>, u8),
+    /// `native_data(Vec<u8>, k)` (`Cow::Owned`)
+    NativeDataVec(Vec<u8>, u8),
     NativeDataOwned(Vec<u8>, u8),
+}
+
+/// An FCALL of `nack` / `fir` / `sli`: the single adder of that builder, or `(probe)`.
+#[derive(Debug)]
+pub enum FciCall<T> {
+    Add(T),
+    Probe,
 }
 
 #[derive(Debug)]
 pub enum Fci {
-    Nack(Vec<u16>),
-    Fir(Vec<(u32, u8)>),
-    Sli(Vec<(u16, u16, u8)>),
+    Nack(Vec<FciCall<u16>>),
+    Fir(Vec<FciCall<(u32, u8)>>),
+    Sli(Vec<FciCall<(u16, u16, u8)>>),
     Rpsi(Vec<RpsiCall>),
     Pli,
+}
+
+/// A CALL of the third-party builder `(custom ...)`.
+#[derive(Debug)]
+pub enum CustomCall {
+    Probe,
+    Padding(u8),
+    /// `(pad_style some0)`: `get_padding()` returns `Some(0)` instead of `None` for padding 0
+    PadStyleSome0,
+}
+
+/// An element of `(compound ...)`.
+#[derive(Debug)]
+pub enum Member {
+    Packet(B),
+    /// `(probe)` on the `CompoundBuilder` holding the members added so far
+    Probe,
 }
 
 /// A builder: constructor plus the calls made on it, in order.
@@ -185,13 +220,12 @@ pub enum B {
         calls: Vec<FbCall>,
     },
     Pb(Box<B>),
-    Compound(Vec<B>),
+    Compound(Vec<Member>),
     Custom {
         pt: u8,
         min: usize,
         body: Vec<u8>,
-        /// the `(padding N)` calls, in order
-        calls: Vec<u8>,
+        calls: Vec<CustomCall>,
     },
     Chunk(Chunk),
     Item(Item),
@@ -336,6 +370,16 @@ fn arity(args: &[Sexp], n: usize) -> Result<(), Bad> {
 fn one_num(args: &[Sexp]) -> Result<u64, Bad> {
     arity(args, 1)?;
     num(&args[0])
+}
+
+/// `(probe)`: the pseudo-call, no arguments.
+fn is_probe(h: &str, a: &[Sexp]) -> Result<bool, Bad> {
+    if h == "probe" {
+        arity(a, 0)?;
+        Ok(true)
+    } else {
+        Ok(false)
+    }
 }
 
 fn custom_grid(pt: &Sexp, min: &Sexp) -> Result<(u8, usize), Bad> {
@@ -533,10 +577,14 @@ fn fci(s: &Sexp) -> Result<Fci, Bad> {
             let mut v = Vec::with_capacity(args.len());
             for c in args {
                 let (h, a) = c.call().ok_or("call")?;
+                if is_probe(h, a)? {
+                    v.push(FciCall::Probe);
+                    continue;
+                }
                 if h != "add" {
                     return Err("call");
                 }
-                v.push(one_num(a)? as u16);
+                v.push(FciCall::Add(one_num(a)? as u16));
             }
             Ok(Fci::Nack(v))
         }
@@ -544,11 +592,15 @@ fn fci(s: &Sexp) -> Result<Fci, Bad> {
             let mut v = Vec::with_capacity(args.len());
             for c in args {
                 let (h, a) = c.call().ok_or("call")?;
+                if is_probe(h, a)? {
+                    v.push(FciCall::Probe);
+                    continue;
+                }
                 if h != "add" {
                     return Err("call");
                 }
                 arity(a, 2)?;
-                v.push((num(&a[0])? as u32, num(&a[1])? as u8));
+                v.push(FciCall::Add((num(&a[0])? as u32, num(&a[1])? as u8)));
             }
             Ok(Fci::Fir(v))
         }
@@ -556,11 +608,19 @@ fn fci(s: &Sexp) -> Result<Fci, Bad> {
             let mut v = Vec::with_capacity(args.len());
             for c in args {
                 let (h, a) = c.call().ok_or("call")?;
+                if is_probe(h, a)? {
+                    v.push(FciCall::Probe);
+                    continue;
+                }
                 if h != "add" {
                     return Err("call");
                 }
                 arity(a, 3)?;
-                v.push((num(&a[0])? as u16, num(&a[1])? as u16, num(&a[2])? as u8));
+                v.push(FciCall::Add((
+                    num(&a[0])? as u16,
+                    num(&a[1])? as u16,
+                    num(&a[2])? as u8,
+                )));
             }
             Ok(Fci::Sli(v))
         }
@@ -569,7 +629,15 @@ fn fci(s: &Sexp) -> Result<Fci, Bad> {
             for c in args {
                 let (h, a) = c.call().ok_or("call")?;
                 v.push(match h {
+                    "probe" => {
+                        arity(a, 0)?;
+                        RpsiCall::Probe
+                    }
                     "payload_type" => RpsiCall::PayloadType(one_num(a)? as u8),
+                    "native_data_vec" => {
+                        arity(a, 2)?;
+                        RpsiCall::NativeDataVec(bytes(&a[0])?, num(&a[1])? as u8)
+                    }
                     "native_data" => {
                         arity(a, 2)?;
                         RpsiCall::NativeData(bytes(&a[0])?, num(&a[1])? as u8)
@@ -604,6 +672,10 @@ pub fn builder(s: &Sexp) -> Result<B, Bad> {
             for c in &args[2..] {
                 let (h, a) = c.call().ok_or("call")?;
                 calls.push(match h {
+                    "probe" => {
+                        arity(a, 0)?;
+                        AppCall::Probe
+                    }
                     "padding" => AppCall::Padding(one_num(a)? as u8),
                     "subtype" => AppCall::Subtype(one_num(a)? as u8),
                     "data" => {
@@ -620,6 +692,10 @@ pub fn builder(s: &Sexp) -> Result<B, Bad> {
             for c in args {
                 let (h, a) = c.call().ok_or("call")?;
                 calls.push(match h {
+                    "probe" => {
+                        arity(a, 0)?;
+                        ByeCall::Probe
+                    }
                     "padding" => ByeCall::Padding(one_num(a)? as u8),
                     "add_source" => ByeCall::AddSource(one_num(a)? as u32),
                     "reason" => {
@@ -644,6 +720,10 @@ pub fn builder(s: &Sexp) -> Result<B, Bad> {
             for c in &args[1..] {
                 let (h, a) = c.call().ok_or("call")?;
                 calls.push(match h {
+                    "probe" => {
+                        arity(a, 0)?;
+                        RrCall::Probe
+                    }
                     "padding" => RrCall::Padding(one_num(a)? as u8),
                     "add_report_block" => {
                         arity(a, 1)?;
@@ -663,6 +743,10 @@ pub fn builder(s: &Sexp) -> Result<B, Bad> {
             for c in &args[1..] {
                 let (h, a) = c.call().ok_or("call")?;
                 calls.push(match h {
+                    "probe" => {
+                        arity(a, 0)?;
+                        SrCall::Probe
+                    }
                     "padding" => SrCall::Padding(one_num(a)? as u8),
                     "ntp" => SrCall::Ntp(one_num(a)?),
                     "rtp" => SrCall::Rtp(one_num(a)? as u32),
@@ -682,6 +766,10 @@ pub fn builder(s: &Sexp) -> Result<B, Bad> {
             for c in args {
                 let (h, a) = c.call().ok_or("call")?;
                 calls.push(match h {
+                    "probe" => {
+                        arity(a, 0)?;
+                        SdesCall::Probe
+                    }
                     "padding" => SdesCall::Padding(one_num(a)? as u8),
                     "add_chunk" => {
                         arity(a, 1)?;
@@ -702,6 +790,10 @@ pub fn builder(s: &Sexp) -> Result<B, Bad> {
             for c in &args[2..] {
                 let (h, a) = c.call().ok_or("call")?;
                 calls.push(match h {
+                    "probe" => {
+                        arity(a, 0)?;
+                        UnkCall::Probe
+                    }
                     "padding" => UnkCall::Padding(one_num(a)? as u8),
                     "count" => UnkCall::Count(one_num(a)? as u8),
                     _ => return Err("call"),
@@ -723,6 +815,10 @@ pub fn builder(s: &Sexp) -> Result<B, Bad> {
             for c in &args[2..] {
                 let (h, a) = c.call().ok_or("call")?;
                 calls.push(match h {
+                    "probe" => {
+                        arity(a, 0)?;
+                        FbCall::Probe
+                    }
                     "sender_ssrc" => FbCall::SenderSsrc(one_num(a)? as u32),
                     "media_ssrc" => FbCall::MediaSsrc(one_num(a)? as u32),
                     "padding" => FbCall::Padding(one_num(a)? as u8),
@@ -747,11 +843,16 @@ pub fn builder(s: &Sexp) -> Result<B, Bad> {
         "compound" => {
             let mut members = Vec::with_capacity(args.len());
             for m in args {
+                if let Some(("probe", a)) = m.call() {
+                    arity(a, 0)?;
+                    members.push(Member::Probe);
+                    continue;
+                }
                 let b = builder(m)?;
                 if !b.is_member() {
                     return Err("member");
                 }
-                members.push(b);
+                members.push(Member::Packet(b));
             }
             Ok(B::Compound(members))
         }
@@ -764,10 +865,21 @@ pub fn builder(s: &Sexp) -> Result<B, Bad> {
             let mut calls = Vec::new();
             for c in &args[3..] {
                 let (h, a) = c.call().ok_or("call")?;
-                if h != "padding" {
-                    return Err("call");
-                }
-                calls.push(one_num(a)? as u8);
+                calls.push(match h {
+                    "probe" => {
+                        arity(a, 0)?;
+                        CustomCall::Probe
+                    }
+                    "padding" => CustomCall::Padding(one_num(a)? as u8),
+                    "pad_style" => {
+                        arity(a, 1)?;
+                        match a[0].atom() {
+                            Some("some0") => CustomCall::PadStyleSome0,
+                            _ => return Err("call"),
+                        }
+                    }
+                    _ => return Err("call"),
+                });
             }
             Ok(B::Custom {
                 pt,
